@@ -39,7 +39,8 @@ RLIMIT_MSGS = ["Resource limit (rlimit) exceeded", "rlimit", "timed out", "could
 
 
 class Failure:
-    def __init__(self, kind, message, fn, gen_line, origin, clause, rendered):
+    def __init__(self, kind, message, fn, gen_line, origin, clause, rendered, in_proof=False):
+        self.in_proof = in_proof      # the failing site lies in ghost code (proof block / assert-by / lemma): never an execution hazard
         self.kind = kind
         self.message = message
         self.fn = fn
@@ -57,7 +58,7 @@ class Failure:
         return "%s::%s::%s[%s]" % (unit, self.fn or "?", self.kind, c)
 
     def to_json(self, unit):
-        return {"obligation": self.obligation_id(unit), "kind": self.kind, "function": self.fn,
+        return {"obligation": self.obligation_id(unit), "kind": self.kind, "function": self.fn, "in_ghost_code": self.in_proof,
                 "message": self.message, "generated_line": self.gen_line, "origin": self.origin,
                 "clause": self.clause, "verus_output": self.rendered}
 
@@ -123,6 +124,24 @@ def fn_ranges_of(text):
                             "body_open_tok": it.body_open, "start_tok": it.start, "end_tok": it.end})
     walk(items, [])
     return toks, res
+
+
+def ghost_ranges(toks):
+    """character ranges of `proof { .. }` blocks and `by { .. }` proof bodies"""
+    out = []
+    n = len(toks)
+    for i, t in enumerate(toks):
+        if t.kind == "id" and t.text in ("proof", "by"):
+            j = i + 1
+            if t.text == "by" and j < n and toks[j].text == "(":
+                j = rustlex.match_close(toks, j) + 1
+            if j < n and toks[j].kind == "punct" and toks[j].text == "{" and not (t.text == "proof" and i + 1 < n and toks[i + 1].text == "fn"):
+                try:
+                    k = rustlex.match_close(toks, j)
+                except (ValueError, IndexError):
+                    continue
+                out.append((toks[j].off, toks[k].off))
+    return out
 
 
 def count_clauses(toks, fr):
@@ -282,6 +301,23 @@ def verify_unit(name, spec_path, repo, build_dir, extra=None, do_canary=True, ti
             res.functions[nm] = {"success": f.get("success"), "mode": f.get("mode:"),
                                  "time_us": f.get("time-micros"), "rlimit": f.get("rlimit")}
     gen_lines = text.split("\n")
+    line_off = [0]
+    for ln in gen_lines:
+        line_off.append(line_off[-1] + len(ln) + 1)
+    granges = ghost_ranges(toks)
+    mode_of = {fr["name"]: fr["mode"] for fr in franges}
+
+    def in_ghost(span, fn):
+        if fn is not None and mode_of.get(fn, "exec") != "exec":
+            return True
+        if not span:
+            return False
+        ln = span.get("line_start", 0)
+        if not (0 < ln <= len(gen_lines)):
+            return False
+        # rustc columns are 1-based character columns
+        off = line_off[ln - 1] + max(0, span.get("column_start", 1) - 1)
+        return any(a <= off <= b for a, b in granges)
 
     def fn_at(line):
         best = None
@@ -320,15 +356,17 @@ def verify_unit(name, spec_path, repo, build_dir, extra=None, do_canary=True, ti
                 fn = fn_at(s["line_start"]) or fn
         # for postcondition failures the primary span is the ensures clause (same fn); for
         # precondition failures the primary span is the callee's requires, the secondary is the call site
+        site = prim[0] if prim else None
         if kind == "precondition":
             sec = [s for s in spans if not s.get("is_primary")]
             if sec:
                 fn = fn_at(sec[0]["line_start"])
+                site = sec[0]
         if fn is None:
             fn = fn_at(line)
         clause = gen_lines[line - 1].strip() if 0 < line <= len(gen_lines) else ""
         org = u.linemap[line - 1] if 0 < line <= len(u.linemap) else {}
-        res.failures.append(Failure(kind, msg, fn, line, org, clause, d.get("rendered", "")))
+        res.failures.append(Failure(kind, msg, fn, line, org, clause, d.get("rendered", ""), in_proof=in_ghost(site, fn)))
     if hard_errors or vr.get("encountered-vir-error"):
         res.status = "undecided"
         res.reason = "generated unit does not compile / is outside the Verus subset: " + "; ".join(hard_errors[:5])
